@@ -119,6 +119,22 @@ def _builtin_table_escape(ctx, repo):
                         verdict, how = True, 'iteration / membership'
                     elif isinstance(par, ast.Return):
                         verdict, how = False, 'returned as such'
+                    elif isinstance(par, ast.Call) and isinstance(par.func, ast.Name) and par.func.id in mod.functions \
+                            and use in par.args and '.' not in par.func.id:
+                        # handed to a module-level helper: the uses of the parameter it binds to are classified
+                        h_ = mod.functions[par.func.id]
+                        hp_ = [a_.arg for a_ in h_.args.args]
+                        i_ = par.args.index(use)
+                        if i_ < len(hp_):
+                            more = [(x, hp_[i_], h_) for x in ast.walk(h_) if isinstance(x, ast.Name) and x.id == hp_[i_]
+                                    and isinstance(x.ctx, ast.Load)]
+                            if (use, local) not in followed_:
+                                followed_.add((use, local))
+                                uses_.extend(more)
+                            verdict, how = True, 'argument of %s() (uses of its parameter %s are classified)' % (
+                                par.func.id, hp_[i_])
+                        else:
+                            verdict, how = None, short(par, 50)
                     elif isinstance(par, ast.Assign) and len(par.targets) == 1 and isinstance(par.targets[0], ast.Name) \
                             and not isinstance(scope, ast.Module) and par.value is use:
                         # a local alias inside a function: every use of the alias is classified instead
@@ -514,6 +530,34 @@ def _table_passthrough(ctx, repo):
                     'to the rule: the added or changed entries were not checked -- a replacement text that is a raw '
                     'LaTeX-active character (%% { $ # \\) reaches the output' % (nm_, short(enclosing_stmt(x) or x, 60)),
                     construct='get_builtin_conversion_rules: edit of ' + nm_)
+    # constructions inside module-level helpers called from here: analysed per call site with the
+    # helper's parameters replaced by the arguments
+    class _C(object):
+        pass
+    extra = []
+    try:
+        hcalls = symex.Walker(is_sink=lambda c: isinstance(c.func, ast.Name) and c.func.id in gm.functions
+                              and c.func.id != fn.name and any(
+                                  isinstance(x, ast.Call) and call_name(x) == 'UnicodeToLatexConversionRule'
+                                  for x in ast.walk(gm.functions[c.func.id])), pure=VIEW).run(fn)
+    except symex.TooManyPaths:
+        hcalls = []
+    for hc in hcalls:
+        h_ = gm.functions[hc.sub.func.id]
+        ren = dict(zip([a_.arg for a_ in h_.args.args], hc.sub.args))
+        try:
+            inner = symex.Walker(is_sink=lambda c: call_name(c) == 'UnicodeToLatexConversionRule', pure=VIEW).run(h_)
+        except symex.TooManyPaths:
+            inner = []
+        for ic in inner:
+            o = _C()
+            o.sub = symex.subst(ic.sub, ren)
+            o.env = hc.env
+            o.node = hc.node
+            o.conds = hc.conds
+            o.cond_src = hc.cond_src
+            extra.append(o)
+    cases = list(cases) + extra
     n = 0
     for cs in cases:
         rt = kwarg(cs.sub, 'rule_type') or (cs.sub.args[0] if cs.sub.args else None)
